@@ -112,7 +112,7 @@ NOT_YET = {
 # coverage added after the third round of seeded changes (appended to the level text)
 EXTRA = {
  "C01": "Added: obtuse cell angles in every lattice; depth-2 thread histories (every ordered pair of 156 edge-of-validity states of all shapes read and scored one after the other on a fresh thread must score as on a thread of its own). Two occupied general sites (second site across a cell face and at generic offsets) as a fourth lattice. Sites near the middle of the cell on a fine ladder of cell sizes (unshifted and stored several cells away).",
- "C02": "Added: every ordered pair of the ~340 shapes scored one after the other on a fresh thread (same component count and enclosing radius included) must score as alone. Two-site states of unequal multiplicity in both orders; near-tied densities through cmp() and max(). A site record that claims a two-fold axis and a mirror (the copies counted are the copies placed). Side ratio 1.6, sites on symmetry elements, skewed cells in the ordering pool, a shape replaced in place after construction.",
+ "C02": "Added: every ordered pair of the ~340 shapes scored one after the other on a fresh thread (same component count and enclosing radius included) must score as alone. Two-site states of unequal multiplicity in both orders; near-tied densities through cmp() and max(). A site record that claims a two-fold axis and a mirror (the copies counted are the copies placed). Side ratio 1.6, sites on symmetry elements, skewed cells in the ordering pool, a shape replaced in place after construction. Round ten: every in-place replacement of a state's shape runs in three histories (never scored; scored, replaced, scored again; scored, copied, replaced in the copy).",
  "C03": "Added: molecules whose particles have a well depth other than 1 (alone and next to a unit particle); like-particle pair energies of the oracle in closed form; obtuse cells and the re-descriptions of a p1/p2 crystal in the cells (A, B-A) and (A, B+A); every third state re-scored after decoy states that differ in one particle parameter. A wide trimer whose sigma exceeds its cutoff. The oracle places the particles of the document itself; site shifts by several lattice vectors. Known finding (open): cut potentials in cells that need more than the sixteen shells the crate sums at most. Near-right cell angles; contacts through the cell diagonal in large oblique cells.",
  "C04": "Added: obtuse cells; every ordered pair of groups placed one after the other with bit-identical numbers on a fresh thread. The point sets the crate's own shape transform places (asymmetric hard trimer) are judged as well. Two-site documents (site of multiplicity one first or second, two general sites). A shuffled outline judged with corners and line midpoints.",
  "C05": "Added: configurations reached through used builders (decoy values first), and all 5040 orders of the seven setter calls for a selection of configurations (orders that behave unlike the parsed configuration are judged in full). kt_start = -0.0, infinite and NaN ratios; proposals worse by 1..1000 ulps against the smallest acceptance draw.",
@@ -122,13 +122,13 @@ EXTRA = {
  "C09": "Added: chains of near-tied scores through every reduction tree; a three-site state with three different Wyckoff letters run repeatedly. Shared-outfile command pairs; optimised states cloned twice serialise to the same bytes and optimise identically. One built optimiser used twice against a fresh one; a 10000-step tiling run under 1, 4, 16 threads. A copy of the very object an optimisation handed back; 32 replicas with a hot main stage.",
  "C10": "Added: every ordered pair of five commands sharing one --outfile (what the second leaves is what it writes to a fresh name). The private pipeline in-process on a recording state (replicas within 1e-6..1e-13 of each other: the written one is the best); runs with a --start-config of another structure. Replica counts 1..250 compared in-process; every replica evaluated as often as the others; the written trimer judged on its numbers.",
  "C11": "Added: doubles that single precision holds exactly but that are not short decimals. Shared-outfile command pairs. p3, p3m1 and p4 handed over as operation strings through the public API. Huge magnitudes; three-site structures; 11-, 12-, 17-gons and unusual site operations through the API; the read-back object compared field for field.",
- "C12": "Added: mirrors in the diagonals (linear part with exactly zero diagonal) as relative and common motions; every ordered pair of shapes answered one after the other on a fresh thread. A common translation by (131072, 131072). Degenerate trimers (coinciding outer discs, concentric discs, outer discs containing the centre). The exact mirror in the x axis; placements built through the (angle, position) constructor next to the axes.",
- "C13": "Added: every ordered pair of like-particle kinds (the second judged right after the first was evaluated); unlike pairs re-evaluated in two other orders, bit for bit. Molecule pairs moved together by (65536, -65536). Molecules of 5, 9, 11 particles also against copies of themselves; a continuity scan of unlike pairs.",
+ "C12": "Added: mirrors in the diagonals (linear part with exactly zero diagonal) as relative and common motions; every ordered pair of shapes answered one after the other on a fresh thread. A common translation by (131072, 131072). Degenerate trimers (coinciding outer discs, concentric discs, outer discs containing the centre). The exact mirror in the x axis; placements built through the (angle, position) constructor next to the axes. Round ten: every shape also answers a placement lattice after a round trip through its JSON text (the bare shape read back and then placed; the two placed copies read back), judged by the exact-geometry oracle at depths of at least 1e-6.",
+ "C13": "Added: every ordered pair of like-particle kinds (the second judged right after the first was evaluated); unlike pairs re-evaluated in two other orders, bit for bit. Molecule pairs moved together by (65536, -65536). Molecules of 5, 9, 11 particles also against copies of themselves; a continuity scan of unlike pairs. Round ten: every common motion of the like-pair product is applied through both operators (LJ2 * Transform2 and Transform2 * LJ2, by reference and by value); the moved particles agree field for field.",
  "C14": "Added: side ratios above one, angles within 1e-9..1e-3 of a right angle and obtuse ones; every ordered pair of 36 cells computed one after the other on a fresh thread. Cell angles 1e-5 and pi - 2e-5.",
  "C15": "Added: operation lists the crate does not ship (p4, p3m1, offset glide); every ordered pair of groups placing the same site one after the other on a fresh thread. Orientations within 1e-6 of the axes; operation lists with another operation than the identity first. Coordinates just below the upper edge; twelve-operation lists; lists read across an edit and consumed in five ways; groups given as strings with quarter translations.",
- "C16": "Added: three passes over the table in two orders on one thread; every group built right after one of 19 valid or rejected operation strings went through the parser on a fresh thread. One pass with every log statement switched on; all upper/lower-case spellings and short symbols through the enum's own FromStr. The group-family pairing as a state carries it (built, written, read back, written again). The pairing check covers copies and compares the operations a written, re-read or copied state carries.",
+ "C16": "Added: three passes over the table in two orders on one thread; every group built right after one of 19 valid or rejected operation strings went through the parser on a fresh thread. One pass with every log statement switched on; all upper/lower-case spellings and short symbols through the enum's own FromStr. The group-family pairing as a state carries it (built, written, read back, written again). The pairing check covers copies and compares the operations a written, re-read or copied state carries. Round ten: the seven built-in names asked for on a fresh thread that first built sites for user-made groups reusing each built-in name with another group's table, and a fourth pass on the main thread after the same.",
  "C17": "Added: rejected-then-good pairs, the same text parsed twice, different texts parsed from one reused buffer. Long valid operation strings.",
- "C18": "Added: builder histories and all 5040 setter orders for a selection of schedules; schedules under a convergence threshold that the run stays below for fewer than six loops. The command line pipeline in-process on a recording state: the state moves iff a stage runs at the requested temperature. Builders handed on as copies.",
+ "C18": "Added: builder histories and all 5040 setter orders for a selection of schedules; schedules under a convergence threshold that the run stays below for fewer than six loops. The command line pipeline in-process on a recording state: the state moves iff a stage runs at the requested temperature. Builders handed on as copies. Round ten: a starting temperature of -0.0 in the configuration product, through the argument parser and the setters.",
  "C19": "Added: parameters on and next to their bounds; builder histories and setter orders. Every proposal of a chained-stage search over real hard and LJ states against the declared ranges; convergence configurations. Bounce scripts off a limit against a call-by-call score function; moves are judged over the histories that obey the deterministic acceptance clauses. max_step_size 0.",
  "C20": "Added: builder histories; probe parameters that start outside their range or whose lower limit lies above the upper one (cell of tiny shapes). The library grid a second time with every log statement switched on, -v/-vv in the command line grid; probes next to their limits; the convergence exit is also required (six loops below the threshold end the run, thresholds <= 0 included). max_step_size 0; odd output locations and settings at zero and beyond the usual in the command line sweep. NaN thresholds, thresholds below the spacing of the score, 2^62..2^64-1 steps with an infinite threshold.",
 }
